@@ -29,8 +29,8 @@ ASSUMPTIONS = [
 ]
 EXHAUSTIVE = {"quick": False, "thorough": True}
 PLAN = {"quick": dict(depth2=5000, depth3=0), "thorough": dict(depth2=None, depth3=60000)}
-FLOORS = {"quick": {"annotations_built": 5000, "passthrough_probes": 120, "rebuild_fingerprints": 5000, "leaf_kinds": 45, "constructors": 22, "generic_class_probes": 30},
-          "thorough": {"annotations_built": 60000, "passthrough_probes": 120, "rebuild_fingerprints": 60000, "leaf_kinds": 45, "constructors": 22, "generic_class_probes": 40}}
+FLOORS = {"quick": {"annotations_built": 5000, "passthrough_probes": 120, "rebuild_fingerprints": 5000, "leaf_kinds": 47, "constructors": 22, "generic_class_probes": 60},
+          "thorough": {"annotations_built": 60000, "passthrough_probes": 120, "rebuild_fingerprints": 60000, "leaf_kinds": 47, "constructors": 22, "generic_class_probes": 80}}
 
 MOD = "vtot_ns"
 SRC = '''
@@ -43,6 +43,10 @@ class Box(typing.Generic[T]):
         self.item = item
     def __eq__(self, o):
         return type(o) is type(self) and o.item == self.item
+@dataclasses.dataclass
+class GBox(typing.Generic[T]):
+    item: T
+    items: typing.List[T] = dataclasses.field(default_factory=list)
 class NoHints:
     def __init__(self):
         self.z = 1
@@ -68,7 +72,7 @@ LEAVES = ["int", "str", "float", "bool", "bytes", "type(None)", "decimal.Decimal
           "datetime.time", "datetime.timedelta", "uuid.UUID", "pathlib.Path", "re.Pattern", "typing.Any", "object", "list", "dict", "tuple", "set",
           "frozenset", "typing.List", "typing.Dict", "typing.Tuple", "typing.Set", "typing.Sequence", "typing.Mapping", "collections.abc.Iterable",
           "T", "TB", "TC", "typing.Callable", "typing.Callable[..., typing.Any]", "typing.Callable[[int], str]", "collections.abc.Callable",
-          "type", "type[int]", "typing.Type[int]", "Box", "Box[int]", "NoHints", "Col", "D", "NT", "TD", "typing.Literal[1, 'a']", "CallableDC",
+          "type", "type[int]", "typing.Type[int]", "Box", "Box[int]", "GBox", "GBox[int]", "NoHints", "Col", "D", "NT", "TD", "typing.Literal[1, 'a']", "CallableDC",
           "bytearray"]
 UNRESOLVABLE = {"typing.Any", "object", "T", "typing.Callable", "typing.Callable[..., typing.Any]", "typing.Callable[[int], str]", "collections.abc.Callable"}
 CTORS = {
@@ -186,10 +190,14 @@ def passthrough_probe(sh, ctor, leaf, src, T):
 def generic_probe(sh, ctor, leaf, src, T, ns):
     """User generic classes, bare and parameterised, must yield WORKING routines: the field of Box / Box[int] is carried through
     (pass-through for the free type-variable, converted for Box[int]) in both directions at every constructor position."""
-    if leaf not in ("Box", "Box[int]"):
+    if leaf not in ("Box", "Box[int]", "GBox", "GBox[int]"):
         return
-    wire_item, item = ("5", 5) if leaf == "Box[int]" else ("keep-me", "keep-me")
-    w, v = {"item": wire_item}, ns.Box(item)
+    wire_item, item = ("5", 5) if leaf.endswith("[int]") else ("keep-me", "keep-me")
+    cls = ns.GBox if leaf.startswith("GBox") else ns.Box
+    w, v = {"item": wire_item}, cls(item)
+    if cls is ns.GBox:
+        w["items"] = [wire_item]
+        v.items = [item]
     shapes = {"list": ([w], [v]), "typing.List": ([w], [v]), "typing.Sequence": ([w], [v]), "tuplevar": ((w,), (v,)), "typing.Tuple": ((w,), (v,)),
               "tuplefix": ((w, 1), (v, 1)), "dict": ({"k": w}, {"k": v}), "typing.Dict": ({"k": w}, {"k": v}), "typing.Mapping": ({"k": w}, {"k": v}),
               "abc.Mapping": ({"k": w}, {"k": v}), "Optional": (w, v), "pipe": (w, v), "deque": ([w], [v]), "dcfield": ({"f": w}, None),
@@ -202,8 +210,10 @@ def generic_probe(sh, ctor, leaf, src, T, ns):
     def holds(o, want, depth=0):
         if isinstance(o, ns.Box):
             return type(o.item) is type(want) and o.item == want
-        if isinstance(o, dict) and set(o) == {"item"}:
-            return type(o["item"]) is type(want) and o["item"] == want
+        if isinstance(o, ns.GBox):
+            return type(o.item) is type(want) and o.item == want and [(type(e), e) for e in o.items] == [(type(want), want)]
+        if isinstance(o, dict) and "item" in o and set(o) <= {"item", "items"}:
+            return type(o["item"]) is type(want) and o["item"] == want and ("items" not in o or [(type(e), e) for e in o["items"]] == [(type(want), want)])
         if depth > 4:
             return False
         if isinstance(o, dict):
